@@ -2,11 +2,15 @@
 C11 — Expression macros denote their body with arguments substituted.
 
 `f(a₁ … aₙ)` evaluates to the body of `f(p₁ … pₘ)` (m ≤ n) in a frame that binds
-exactly `pᵢ ↦ value of aᵢ at the call site` (`C11_call`, `C11_bindings`), and
+exactly `pᵢ ↦ value of aᵢ at the call site`, for ALL m parameters (`C11_call`,
+`C11_bindings`, `C11_bindings_all`; surplus arguments are ignored), and
 evaluating in that frame is evaluating the body with every `$pᵢ` replaced by
 that value in an empty frame (`C11_substitution`) — so macros that call other
 macros, forward their parameters or reuse parameter names cannot interfere, at
-any nesting depth.  Definitions are looked up in the scope's macro table, which
+any nesting depth.  With fewer arguments than parameters (n < m) the invocation
+is an error: when the arguments given evaluate, `undefinedVariable pₙ₊₁`, the
+first parameter left without argument, whether or not the body reads it
+(`C11_missing_argument`, `C11_missing_argument_args`; `fix:` 841db2a, D28).  Definitions are looked up in the scope's macro table, which
 is filled before any instruction is fed (`declare` in `Asm.assemble`), so a
 definition may follow its use.
 -/
@@ -29,6 +33,31 @@ theorem C11_bindings (fuel : Nat) (ctx : Ctx) (params : List String) (args : Exp
     vals.map (·.1) = params.take (min params.length args.toList.length) ∧
     ∀ i (hi : i < vals.length), ∃ a, args.toList[i]? = some a ∧ eval (fuel - 1) ctx a = .ok (vals[i]).2 :=
   evalArgs_spec fuel ctx params args vals h
+
+/-- a successful invocation binds every parameter, so it has at least as many arguments as parameters -/
+theorem C11_bindings_all (fuel : Nat) (ctx : Ctx) (params : List String) (args : Exprs) (vals : List (String × Int))
+    (h : evalArgs fuel ctx params args = .ok vals) :
+    vals.map (·.1) = params ∧ params.length ≤ args.toList.length :=
+  evalArgs_ok_params fuel ctx params args vals h
+
+/-- fewer arguments than parameters, argument level: when the arguments given evaluate (as arguments of the first
+`args.length` parameters), binding fails with the first parameter left without argument -/
+theorem C11_missing_argument_args (fuel : Nat) (ctx : Ctx) (params : List String) (args : Exprs)
+    (vals : List (String × Int)) (hlt : args.toList.length < params.length)
+    (h : evalArgs fuel ctx (params.take args.toList.length) args = .ok vals) :
+    evalArgs fuel ctx params args = .error (.undefinedVariable (params[args.toList.length]'hlt)) :=
+  evalArgs_missing fuel ctx params args vals hlt h
+
+/-- fewer arguments than parameters: when every argument given evaluates at the call site, the invocation is the error
+naming the first parameter left without argument — whatever the body -/
+theorem C11_missing_argument (f : Nat) (ctx : Ctx) (name : String) (params : List String) (body : Expr) (args : Exprs)
+    (hm : lookupMacro ctx.macros name = some (.expr params body))
+    (hlt : args.toList.length < params.length)
+    (hall : ∀ a ∈ args.toList, ∃ v, eval f ctx a = .ok v) :
+    eval (f + args.toList.length + 2) ctx (.macro name args)
+      = .error (.undefinedVariable (params[args.toList.length]'hlt)) := by
+  rw [show f + args.toList.length + 2 = (f + args.toList.length + 1) + 1 by omega, eval]
+  simp only [hm, evalArgs_missing_all f ctx args params hlt hall]
 
 theorem C11_substitution (fuel : Nat) (ctx : Ctx) (vs : List (String × Int)) (e : Expr) :
     eval fuel { ctx with vars := some vs } e = eval fuel { ctx with vars := some [] } (substVals vs e) :=
